@@ -670,10 +670,11 @@ def checker_verdict(mp) -> str | None:
     return r.decode("utf-8", "replace") if r else None
 
 
-def ort_run(mp, vals):
+def ort_run(mp, vals, ov=None):
     """onnxruntime in the worker process (a crash of native code must not kill the check). Raises on rejection."""
     import pickle
-    names = [vi.name for vi in G.noninit_inputs(mp)]
+    fd = G.feed_dict(mp, vals, ov)
+    names, vals = list(fd.keys()), list(fd.values())
     r = _worker_call(b"O", pickle.dumps((mp.SerializeToString(), names, vals)))
     if r is None:
         raise RuntimeError("CRASH onnxruntime process died on this model")
@@ -701,7 +702,14 @@ def oracle(spec: dict, passes: list[str], seed: int, protos=None, raised=None, u
     if v0 is not None:
         info["invalid"] = "checker:" + v0[:120]
         return [], info
-    run_exec = ort_run if spec.get("judge") == "ort" else G.run_ref
+    # overridable (initializer-backed) inputs are fed too in half of the cases, when every model of the sequence has the
+    # same number of them (AddInitializersToInputs / RemoveInitializersFromInputs change that number)
+    nib = len(G.initbacked_inputs(mp0))
+    ov = None
+    if nib and seed % 2 == 0 and all(len(G.initbacked_inputs(mp)) == nib for mp in protos[1:]) and spec.get("judge") != "ort":
+        ov = G.override_vals(mp0, seed)
+        info["overrides"] = nib
+    run_exec = ort_run if spec.get("judge") == "ort" else (lambda mp, vals: G.run_ref(mp, vals, ov))
     try:
         vals = G.feeds_for(mp0, seed)
         ref0 = run_exec(mp0, vals)
@@ -741,12 +749,12 @@ def oracle(spec: dict, passes: list[str], seed: int, protos=None, raised=None, u
             bad.append(f"pass-raised: step {i} {name}: {et}({cause}): {msg[:160]}")
     if use_ort and not bad and len(protos) > 1:
         try:
-            o0 = ort_run(mp0, vals)
+            o0 = ort_run(mp0, vals, ov)
         except Exception:  # noqa: BLE001
             info["ort"] = "rejects-before"
             return bad, info
         try:
-            o1 = ort_run(protos[-1], vals)
+            o1 = ort_run(protos[-1], vals, ov)
         except Exception as e:  # noqa: BLE001
             info["ort"] = "rejects-after"
             info["ort_error"] = str(e)[:200]
@@ -893,6 +901,34 @@ def classify(spec: dict, passes: list[str], failure: str) -> str | None:
     return None
 
 
+def _dup_name_is_cross_scope(spec, passes, failure) -> bool:
+    """The duplicated output name occurs in two DIFFERENT (nested) graphs of the pass output, never twice in one graph."""
+    import re
+    m = re.search(r"however '([^']*)' has been used as output names", failure)
+    ms = re.search(r"step (\d+)", failure)
+    if not m or not ms:
+        return False
+    name, step = m.group(1), int(ms.group(1))
+    try:
+        protos, _, _ = run_case(spec, passes, conv_steps=False)
+        mp = protos[step + 1]
+    except Exception:  # noqa: BLE001
+        return False
+    paths = []
+
+    def walk(g, path):
+        for i, n in enumerate(g.node):
+            if name in n.output:
+                paths.append(path)
+            for a in n.attribute:
+                if a.type == 5:
+                    walk(a.g, path + (i, a.name))
+                for k, sg in enumerate(a.graphs):
+                    walk(sg, path + (i, a.name, k))
+    walk(mp.graph, ())
+    return len(paths) >= 2 and len(set(paths)) == len(paths)
+
+
 _classify_base = classify
 
 
@@ -908,6 +944,12 @@ def classify(spec, passes, failure):  # noqa: F811
     if step_pass in ("cse", "cse100") and kind == "checker-rejects-after" and "has been used as output names multiple times" in failure \
             and len(set(outs)) != len(outs):
         return "cse-duplicate-graph-output-identity-names"
+    if step_pass == "inline" and kind == "checker-rejects-after" and "has been used as output names multiple times" in failure \
+            and spec.get("functions") and _dup_name_is_cross_scope(spec, passes, failure):
+        return "inline-name-collision-with-nested-scope"
+    if step_pass == "inline" and kind == "checker-rejects-after" and "has output size 0" in failure and any(
+            "" in n["outs"] and n.get("dom") == "local" for n in _walk_nodes(spec)):
+        return "inline-omitted-call-output"
     if step_pass == "inline" and any(set(f["outs"]) & set(f["ins"]) for f in spec.get("functions", [])) and (
             (kind == "pass-raised" and "already an output of a different graph" in failure)
             or (kind == "checker-rejects-after" and "is not an output of any node in graph" in failure)):
@@ -1083,6 +1125,53 @@ def multi_opset_cases(rng, n: int):
     return cases
 
 
+def targeted_cases(rng, n: int):
+    """Small randomised templates for situations the general generator reaches too rarely."""
+    N = lambda op, ins, outs, dom="", **attrs: {"op": op, "dom": dom, "ins": ins, "outs": outs, "attrs": attrs}  # noqa: E731
+    cases = []
+    for i in range(n):
+        un = rng.choice(["Neg", "Abs", "Tanh", "Relu"])
+        # (a) a function whose internal names collide with generated-looking names of the caller, inlined several times
+        base = rng.choice(["t", "val", "u", "node_out"])
+        fn = {"name": "Fa", "dom": "local", "ins": ["a"], "outs": ["r"], "attrs": [], "defaults": {},
+              "nodes": [N(un, ["a"], [base]), N("Add", [base, "a"], [base + "_2"]), N("Mul", [base + "_2", base], ["r"])]}
+        k = rng.choice([2, 3])
+        names = [base + "_2", base + "_3", base, base + "_4"]
+        rng.shuffle(names)
+        nodes = [N("Abs", ["x0"], [names[0]]), N("Neg", ["x0"], [names[1]])]
+        outs = []
+        for j in range(k):
+            nodes.append(N("Fa", [rng.choice([names[0], names[1], "x0"])], [f"c{j}"], dom="local"))
+            outs.append([f"c{j}", "F2"])
+        nodes.append(N("Add", [names[0], names[1]], ["z"]))
+        outs.append(["z", "F2"])
+        cases.append(({"opset": 18, "inputs": [["x0", "F2"]], "inits": [], "functions": [fn], "nodes": nodes, "outputs": outs},
+                      rng.choice([["inline"], ["inline", "namefix"], ["inline", "cse"]]), rng.randrange(1 << 30)))
+        # (b) an overridable initializer next to plain initializers with the same content (feeds override it: even seed)
+        data = rng.choice([[1.0, 2.0], [3.0, -4.0]])
+        order = rng.choice([["wi", "wa", "wb"], ["wa", "wi", "wb"], ["wa", "wb", "wi"]])
+        inits = [[w, "F2", data, w == "wi"] for w in order]
+        cases.append(({"opset": 18, "inputs": [["x0", "F2"], ["wi", "F2"]], "inits": inits, "functions": [],
+                       "nodes": [N("Add", ["x0", "wa"], ["p"]), N("Mul", ["p", "wb"], ["q"]), N("Sub", ["q", "wi"], ["y"])],
+                       "outputs": [["y", "F2"], ["p", "F2"]]},
+                      rng.choice([["dedup"], ["deduph"], ["dedup", "dce"], ["liftsub", "dedup"]]), 2 * rng.randrange(1 << 29)))
+        # (c) a function reachable only through a nested body (If/Loop) of another function
+        inner = {"name": "Fin", "dom": "local", "ins": ["a"], "outs": ["r"], "attrs": [], "defaults": {}, "nodes": [N(un, ["a"], ["r"])]}
+        branch = {"name": "th", "inputs": [], "inits": [], "nodes": [N("Fin", ["b"], ["bo"], dom="local")], "outputs": [["bo", "F2"]]}
+        other = {"name": "el", "inputs": [], "inits": [], "nodes": [N("Identity", ["b"], ["eo"])], "outputs": [["eo", "F2"]]}
+        if rng.random() < 0.5:
+            other, branch = dict(branch, name="el"), dict(other, name="th")
+            other["nodes"][0]["outs"], other["outputs"] = ["eo2"], [["eo2", "F2"]]
+        outer = {"name": "Fout", "dom": "local", "ins": ["b", "c"], "outs": ["o"], "attrs": [], "defaults": {},
+                 "nodes": [N("If", ["c"], ["o"], then_branch=["g", branch], else_branch=["g", other])]}
+        unused = {"name": "Fun", "dom": "local", "ins": ["a"], "outs": ["r"], "attrs": [], "defaults": {}, "nodes": [N("Neg", ["a"], ["r"])]}
+        fns = [inner, outer] + ([unused] if rng.random() < 0.5 else [])
+        cases.append(({"opset": 18, "inputs": [["x0", "F2"], ["c0", "B"]], "inits": [], "functions": fns,
+                       "nodes": [N("Fout", ["x0", "c0"], ["y"], dom="local")], "outputs": [["y", "F2"]]},
+                      rng.choice([["rmfunc"], ["rmfunc", "inline"], ["dce", "rmfunc"], ["rmfunc", "rmfunc"]]), rng.randrange(1 << 30)))
+    return cases
+
+
 def check_cases(ck, cases, tag: str, structural: bool = True):
     """Run implementation + oracle on the cases; structural correspondence in Coq. Returns oracle failures."""
     steps_all, owners = [], []
@@ -1220,6 +1309,10 @@ def run(ck) -> None:
     f3, m3 = check_cases(ck, multi_opset_cases(ck.rng, 12 if not ck.thorough else 120), "multiopset", structural=False)
     failures += f3
     ck.hist("streams", "multi-opset-models")
+    f4, m4 = check_cases(ck, targeted_cases(ck.rng, 6 if not ck.thorough else 60), "targeted")
+    failures += f4
+    mism += m4
+    ck.hist("streams", "targeted-templates")
     for st, (spec, passes, seed) in mism[:5]:
         path = ck.write_replay({"kind": "correspondence-mismatch", "pass": st.pass_name, "step_kind": st.kind, "spec": spec,
                                 "passes": passes, "input_seed": seed, "model_expr": st.expr,
